@@ -103,7 +103,10 @@ func m12Flip() bool {
 	return b
 }
 
+var m12Processed, m12Forwarded [][]byte
+
 func m12Process(_ *int, req []byte) []byte {
+	m12Processed = append(m12Processed, append([]byte(nil), req...))
 	return []byte{5} // some reply; its content is x/crypto's business
 }
 func m12ParsePublicKey(in []byte) (ssh.PublicKey, error) {
@@ -148,8 +151,12 @@ func (m12Agent) SignWithFlags(ssh.PublicKey, []byte, sshagent.SignatureFlags) (*
 }
 func (m12Agent) Extension(string, []byte) ([]byte, error) { return nil, m12Err() }
 func (m12Agent) Forward(req []byte) ([]byte, error) {
+	m12Forwarded = append(m12Forwarded, append([]byte(nil), req...))
 	if m12Flip() {
 		return nil, errors.New("e")
+	}
+	if m12Flip() {
+		return []byte{}, nil // the upstream agent answered with an empty frame: still one response frame
 	}
 	return []byte{7}, nil
 }
@@ -290,6 +297,45 @@ func H12_serve() {
 		} else {
 			writes++
 		}
+	}
+}
+
+// H12_dispatch: which requests the served agent's own methods answer (through
+// the ssh-agent library's server) and which are relayed raw.
+func H12_dispatch() {
+	m12Pool = make([]bool, 8)
+	for i := range m12Pool {
+		m12Pool[i] = vNondetBool("env")
+	}
+	m12Processed, m12Forwarded = nil, nil
+	l := 2 + vChoose(2, "frame-len")
+	frame := vNondetBytes("frame", l)
+	c := &m12Conn{frameAt: map[int]bool{}}
+	c.frameAt[0] = true
+	c.in = append(c.in, 0, 0, 0, byte(l))
+	c.in = append(c.in, frame...)
+	c.frameAt[len(c.in)] = true
+	crashed := vCatch(func() { ServeAgent(m12Agent{}, c) })
+	vRunGoroutines()
+	vAssert(!crashed, "C12.serve-no-crash")
+	if crashed {
+		return
+	}
+	code := frame[0]
+	lib := false
+	for _, k := range []byte{1, 11, 13, 17, 18, 19, 22, 23, 25} {
+		lib = vOr(lib, code == k)
+	}
+	ext := vAnd(code >= 31, code <= 35)
+	unclaimed := vOr(code == 9, code == 27)
+	if lib {
+		vAssert(len(m12Forwarded) == 0, "C13.library-requests-are-not-relayed")
+		vAssert(len(m12Processed) == 1 && vEqBytes(m12Processed[0], frame), "C13.library-requests-reach-the-served-agent-unchanged")
+		vReach("C13.dispatch.library")
+	} else if !ext && !unclaimed {
+		vAssert(len(m12Processed) == 0, "C13.other-requests-are-not-interpreted")
+		vAssert(len(m12Forwarded) == 1 && vEqBytes(m12Forwarded[0], frame), "C13.other-requests-are-relayed-raw-once")
+		vReach("C13.dispatch.relayed")
 	}
 }
 
